@@ -88,9 +88,10 @@ class Check:
                 knownhits.append((v, hit))
             else:
                 new.append(v)
-        os.makedirs(os.path.join(core.VERIF, "evidence", "replay"), exist_ok=True)
+        evdir = os.environ.get("PSV_EVIDENCE_DIR") or os.path.join(core.VERIF, "evidence")
+        os.makedirs(os.path.join(evdir, "replay"), exist_ok=True)
         # clear old replays of this property
-        rdir = os.path.join(core.VERIF, "evidence", "replay")
+        rdir = os.path.join(evdir, "replay")
         for fn in os.listdir(rdir):
             if fn.startswith(self.prop + "-"):
                 os.remove(os.path.join(rdir, fn))
@@ -135,7 +136,7 @@ class Check:
         ev = dict(property_id=self.prop, tier=self.tier, seed=self.seed, level="other", coverage=cov,
                   assumptions=self.assumptions, wall_s=round(time.time() - self.t0, 3),
                   violations=len(new))
-        with open(os.path.join(core.VERIF, "evidence", "%s.json" % self.prop), "w") as fh:
+        with open(os.path.join(evdir, "%s.json" % self.prop), "w") as fh:
             json.dump(ev, fh, indent=1)
         print("%s: %d obligations, %d discharged, %d known finding(s), %d new violation(s) [%s, %.1fs]" %
               (self.prop, len(self.obligations), ok_n, len(knownhits), len(new), self.tier, time.time() - self.t0))
